@@ -611,11 +611,20 @@ REFINED = ["ConstDivisor::new (shift)", "ConstSingleDivisor::rem_word/rem_dword/
            "written on C01's mirrored UBig representation (TRepr.add, TRepr.sub with NegativeUBig as an error value, TRepr.shl, TRepr.cmp; the multi-word arms call sub_large, "
            "sub_large_dword, sub_large_ref_val, cmp_in_place directly; check with its (Large, RefSmall) => true and words[0] & ones_word(shift) arms) — proved for every word size and every "
            "ring ConstDivisor::new builds: on canonical operands that pass check no UBig subtraction panics, results are canonical and their values are the rAdd / rSub / rNeg of reducer_ops "
-           "(reducer_ubig_link; by import of C01's TRepr.add_spec / sub_ok / shl_spec / cmp_spec). Theorem-level mirror: the driver keeps executing rAdd / rSub / rNeg (no driver change in round 7)"]
+           "(reducer_ubig_link; by import of C01's TRepr.add_spec / sub_ok / shl_spec / cmp_spec). Theorem-level mirror: the driver keeps executing rAdd / rSub / rNeg (no driver change in round 7)",
+           "round 8, C13<->C02/C01 link for Reducer<UBig>::residue / is_zero (Proofs/NT/ModResidueU.lean, Props/C13Reducer): residue written on C01's mirrored UBig representation and C02's "
+           "MIRRORED shift::shr_in_place (Small: from_word(shrink_dword(dw).unwrap() >> shift) / from_dword(dw >> shift); Large: debug_assert_zero!(shr_in_place(&mut buffer, d.shift)) then "
+           "Repr::from_buffer; unreachable!() for a heap operand in a one- or two-word ring; the unwrap, the overflow check of >>, the debug assertion and unreachable!() are error values) — "
+           "proved for every word size and every ring ConstDivisor::new builds: on a canonical operand that passes check none of the four error arms is taken, the result is canonical, equals "
+           "target / 2^shift (what the driver prints for every r.* op) and lies in [0, m); is_zero decides residue = 0; composed with reducer_ubig_link and reducer_ops: residue(add(x,y)), "
+           "residue(dbl(x)), residue(sub(x,y)), residue(neg(x)) on the representation are the ring sum / double / difference / negation of the residues (reducer_residue_link; by import of "
+           "C02's shrInPlace_spec and C01's fromBuffer_value / fromBuffer_canon). Theorem-level mirror, not executed by the driver (no driver change in round 8)"]
 FRONTIER = ["large::pow above the driver's work budget (n^2 * bit_len(exp) > 1.5e5 word operations) is executed with the value-level mul_normalized instead of the buffer-level one "
             "(pow_kernels_all proves both equal on every valid base, so this only bounds the running time of the check); the extended-gcd kernels inside inv_large (C12's gcdExtSmall / lehmerExt) "
             "run on values, not on the buffers gcd_ext_in_place works in (C12 owns their buffer-level mirror, Proofs/NT/LehmerBuf*); the representation-level mirror of Reducer<UBig>'s add/dbl/sub/neg "
-            "(round 7, rAddU / rSubU / rNegU over C01's TRepr operators, proved = rAdd / rSub / rNeg by reducer_ubig_link) is not yet the one the driver executes",
+            "(round 7, rAddU / rSubU / rNegU over C01's TRepr operators, proved = rAdd / rSub / rNeg by reducer_ubig_link; round 8, rResidueU over C02's shrInPlace / C01's fromBuffer, proved = t / 2^shift "
+            "by reducer_residue_link) is not yet the one the driver executes; Reducer<UBig>::transform / mul / sqr / inv / pow convert to Reduced and back (convert_from_normalized / convert_to_normalized: "
+            "push_zeros / pop_zeros + from_buffer) — that conversion appears at its value",
             "the `s >= umax::BITS` arm of udouble::shl_u32 and the `self.hi >= rhs` arm of Rem<u128> for udouble are modelled and covered by the theorems "
             "(udoubleRem_spec) but unreachable from invm (quo*t < m*2^128), so Tie B never exercises them",
             "the ptr::eq ring identity is modelled by an instance id (two instances with equal modulus are different rings): a modelling convention, not derivable from source text"]
@@ -668,7 +677,8 @@ LEVEL_TEXT = ("Machine-checked Lean 4 theorems over an executable model that mir
               "(rem_large, mul_normalized, sqr_normalized, the windowed pow loop) through C01's mirrored multiplication and C02's mirrored Knuth-D / Burnikel-Ziegler division, "
               "with exactness imported from C01's / C02's theorems (W >= 4); the additive operations of multi-word rings (add_in_place, dbl_in_place, sub_in_place(_swap), negate_in_place) "
               "on buffers through C01's mirrored add/sub word loops with their debug assertions proved never to fail; the Reducer<UBig> impl's add/dbl/sub/neg through C01's mirrored UBig operators "
-              "(no NegativeUBig panic on checked operands, canonical results; theorem-level link); inv_large through C12's mirrored extended-gcd kernels with the range claim |b| < modulus proved; "
+              "(no NegativeUBig panic on checked operands, canonical results; theorem-level link) and its residue / is_zero through C02's mirrored shr_in_place and C01's from_buffer (unwrap, shift overflow, "
+              "debug_assert_zero!, unreachable!() proved not taken on checked operands; theorem-level link); inv_large through C12's mirrored extended-gcd kernels with the range claim |b| < modulus proved; "
               "num-modular's invm with machine arithmetic (checked / wrapping u64 / u128, udouble::widening_mul, div_rem_2by1) proved overflow-free and exact for every width. "
               "Decision logic of mul/pow/div and of the buffer mirrors is regenerated from source and proved equal to the model's. The model is tied to /repo on every "
               "run by differential execution against ConstDivisor::reduce, all Reduced operator call forms and the num_modular::Reducer impl.")
@@ -685,5 +695,5 @@ THEOREMS = ["Dashu.Props.C13." + t for t in ["new_spec", "reduce_spec", "ops_clo
             "widening_mul_exact", "udouble_div_rem_2by1_exact", "prim_mulm_exact", "invm_prim_exact", "inv_div_kernels_all",
             "buffer_logic_gen", "rem_large_gen", "mul_normalized_gen", "product_low_gen", "pow_kernels_all",
             "add_sub_neg_kernels_all", "add_in_place_exact", "add_sub_neg_ops_all", "add_logic_gen", "inv_large_buffers_all"]] + [
-            "Dashu.Props.C13Reducer.reducer_ubig_link"]
+            "Dashu.Props.C13Reducer.reducer_ubig_link", "Dashu.Props.C13Reducer.reducer_residue_link"]
 READY = True
